@@ -127,11 +127,13 @@ reg("C09",
     gen=lambda seed, tier: (P.gen_history_programs(G.Rng(seed + 9), N(tier, 60, 600), maxlen=N(tier, 14, 40), full=True) +
                             P.gen_shard_programs(G.Rng(seed + 91), N(tier, 8, 40)) +
                             P.gen_shared_removal_programs(G.Rng(seed + 94), N(tier, 20, 200)) +
-                            P.gen_key_matrix_programs(G.Rng(seed + 95))),
+                            P.gen_key_matrix_programs(G.Rng(seed + 95)) +
+                            P.gen_multihash_removal_programs(G.Rng(seed + 96))),
     extra=lambda seed, tier, flavours: LG.leg_skeleton(
         P.gen_shard_programs(G.Rng(seed + 92), N(tier, 4, 16)) +
         P.gen_history_programs(G.Rng(seed + 93), N(tier, 3, 12), maxlen=10, full=True), flavours[0]),
-    monitors=[lambda rr: P.mon_shared_removal(rr) if "removals" in rr.prog.tags else P.mon_history(rr)],
+    monitors=[lambda rr: (P.mon_shared_removal(rr) if "removals" in rr.prog.tags else
+                          P.mon_expect_reads(rr) if "expect_reads" in rr.prog.tags else P.mon_history(rr))],
     nontrivial=lambda rr: has(rr, ("remove", "remove_hash", "remove_fully", "clear"), ("ok",)),
     rule="as C05 plus remove_hash, remove_fully and clear; plus shared-content removal programs (see C10); "
          "non-trivial = some removal succeeded")
